@@ -84,6 +84,14 @@ Inductive case :=
 | CSlow (h : case) (offered landed : list json) (rs : option restart) (fc : option fcobs)
         (* h: a sequential history (a CHist) some of whose Cache.Write calls took virtual seconds to minutes;
            then, after ample time: the payloads in the order they were OFFERED to and LANDED in the cache *)
+| CLife (h : case) (names2 : list name) (ans2 : list (name * option (N * bytes))) (now2 : Z)
+        (ok2 : bool) (writes2 : list json) (rs : option restart) (fc : option fcobs)
+        (* three lifetimes on one cache: h = run 1 (a CHist ending in a good cache); run 2 = a start with
+           more declared names that the service cannot all answer before the caller's context ends;
+           run 3 = a start with run 1's names and a dead service, from whatever the cache holds now *)
+| CRetain (h : case) (kept : list (json * cache_input))
+        (* h ran over a cache that RETAINS the slices it is given; kept: each payload as it was when
+           written and as the retained slice reads after all later flushes and Close *)
 | CFc (tbl : b64tbl) (cin : cache_input) (fc : fcobs)     (* NewFileClient on a hand-written file *)
 | CFs (old : option (list N)) (new : list N) (tr : list (Setec.Server.FS.op N)).
     (* one FileCache.Write traced with real bytes, in the vocabulary of the file-system model of C04 *)
@@ -257,6 +265,50 @@ Definition check_slow (names : list name) (age : Z) (probe : list name)
   && restart_ok c names age 0%Z probe (if clean then Some s else None) rs
   && fc_ok c fc.
 
+(* ---- a failed start in the middle.  The model: a start that cannot obtain every declared name
+   performs NO cache write.  Tolerated as well (the property allows it): complete valid documents
+   that keep everything the cache held and add only values the service really gave. *)
+Definition acceptable_progress (loaded : @smap name (option (centry bytes))) (ans2 : list (name * option (N * bytes))) (t : json) : bool :=
+  match decode_cache dec t with
+  | Some d =>
+    cache_valid d
+    && forallb (fun '(k, e) => match e with
+                               | Some (Some (v, b), _) =>
+                                 sv_eqb (served loaded k) (Some (v, b)) || sv_eqb (assoc_ans ans2 k) (Some (v, b))
+                               | _ => false end) d
+    && forallb (fun '(k, oe) => match oe with
+                                | Some e => match find k d with
+                                            | Some (Some (Some (v, b), _)) => (v =? ver e)%N && neqb b (val e)
+                                            | _ => false end
+                                | None => true end) loaded
+  | None => false
+  end.
+
+Definition check_life (names : list name) (age : Z) (probe : list name)
+                      (names2 : list name) (ans2 : list (name * option (N * bytes))) (now2 : Z)
+                      (ok2 : bool) (writes2 : list json) (rs : option restart) (fc : option fcobs)
+                      (s : store bytes) (c : cache_input) (clean alive : bool) : bool :=
+  match new_store (decode_in c) names2 true age (assoc_ans ans2) now2 with
+  | Some _ => false                       (* the generated second start is one that cannot succeed *)
+  | None =>
+    let loaded := load_cache (decode_in c) in
+    let c2 := match rev writes2 with t :: _ => Some (Some t) | [] => c end in
+    negb ok2
+    && forallb (acceptable_progress loaded ans2) writes2
+    && clean
+    && restart_ok c2 names age now2 probe None rs            (* run 3: 0 requests, serves what the content says ... *)
+    && match new_store (decode_in c2) names true age (fun _ => None) now2 with
+       | Some (s3, _, _) =>                                   (* ... which includes everything run 1 left *)
+         forallb (fun '(k, _) => sv_eqb (served (m s3) k) (served (m s) k)) (m s)
+       | None => false
+       end
+    && fc_ok c2 fc
+  end.
+
+Definition check_retain (kept : list (json * cache_input))
+                        (s : store bytes) (c : cache_input) (clean alive : bool) : bool :=
+  forallb (fun '(t, now) => match now with Some (Some t') => jeq t t' | _ => false end) kept.
+
 End Check.
 
 (* ---- the file-system model of C04 (Server/FS.v) applied to the cache file: constructors under
@@ -289,6 +341,13 @@ Definition check (c : case) : bool :=
     check_hist tbl rfail cin names allow age ia now0 probe cok creqs cwok cobs steps
                (check_slow tbl names age probe offered landed rs fc)
   | CSlow _ _ _ _ _ => false
+  | CLife (CHist tbl rfail cin names allow age ia now0 probe cok creqs cwok cobs steps) names2 ans2 now2 ok2 writes2 rs fc =>
+    check_hist tbl rfail cin names allow age ia now0 probe cok creqs cwok cobs steps
+               (check_life tbl names age probe names2 ans2 now2 ok2 writes2 rs fc)
+  | CLife _ _ _ _ _ _ _ _ => false
+  | CRetain (CHist tbl rfail cin names allow age ia now0 probe cok creqs cwok cobs steps) kept =>
+    check_hist tbl rfail cin names allow age ia now0 probe cok creqs cwok cobs steps (check_retain kept)
+  | CRetain _ _ => false
   | CFc tbl cin fc => fc_ok tbl cin (Some fc)
   | CTrace expect_ok t => if expect_ok then atomic_write_ok t else failed_write_ok t
   | CInject panicked content t => negb panicked && ((content =? 0)%N || (content =? 1)%N) && failed_write_ok t
